@@ -24,6 +24,7 @@ import (
 	"io"
 	"os"
 	"os/exec"
+	"os/signal"
 	"path/filepath"
 	"sort"
 	"strconv"
@@ -78,8 +79,35 @@ var harnessDirs = map[string]string{
 	"proxy":        "apps/proxy",
 }
 
+// scratch directories (outside /repo and /verif) are removed on every way out,
+// including die().
+var scratchDirs []string
+var scratchMu sync.Mutex
+
+func newScratch(pattern string) string {
+	d, err := os.MkdirTemp("", pattern)
+	if err != nil {
+		fmt.Fprintf(os.Stderr, "vcheck: mktemp: %v\n", err)
+		os.Exit(2)
+	}
+	scratchMu.Lock()
+	scratchDirs = append(scratchDirs, d)
+	scratchMu.Unlock()
+	return d
+}
+
+func cleanupScratch() {
+	scratchMu.Lock()
+	defer scratchMu.Unlock()
+	for _, d := range scratchDirs {
+		os.RemoveAll(d)
+	}
+	scratchDirs = nil
+}
+
 func die(code int, format string, a ...any) {
 	fmt.Fprintf(os.Stderr, "vcheck: "+format+"\n", a...)
+	cleanupScratch()
 	os.Exit(code)
 }
 
@@ -177,10 +205,7 @@ func ensureBuilt(names []string, race bool) (string, *buildInfo) {
 	}
 	pruneCache(fp)
 	t0 := time.Now()
-	scratch, err := os.MkdirTemp("", "vsim-build-")
-	if err != nil {
-		die(2, "mktemp: %v", err)
-	}
+	scratch := newScratch("vsim-build-")
 	defer os.RemoveAll(scratch)
 	exclude := map[string]bool{}
 	for attempt := 0; ; attempt++ {
@@ -503,6 +528,14 @@ func seedFromEnv() uint64 {
 }
 
 func main() {
+	sig := make(chan os.Signal, 1)
+	signal.Notify(sig, syscall.SIGINT, syscall.SIGTERM)
+	go func() {
+		<-sig
+		cleanupScratch()
+		os.Exit(2)
+	}()
+	defer cleanupScratch()
 	if len(os.Args) < 2 {
 		die(2, "usage: vcheck run <id> [--tier t] | replay <file> | build | selftest")
 	}
@@ -517,12 +550,16 @@ func main() {
 				tier = os.Args[i+1]
 			}
 		}
-		os.Exit(runCheck(os.Args[2], tier))
+		code := runCheck(os.Args[2], tier)
+		cleanupScratch()
+		os.Exit(code)
 	case "replay":
 		if len(os.Args) < 3 {
 			die(2, "usage: vcheck replay <file>")
 		}
-		os.Exit(replayCmd(os.Args[2]))
+		code := replayCmd(os.Args[2])
+		cleanupScratch()
+		os.Exit(code)
 	case "build":
 		var names []string
 		for n := range harnesses {
@@ -541,7 +578,9 @@ func main() {
 				tier = os.Args[i+1]
 			}
 		}
-		os.Exit(selftest(tier))
+		code := selftest(tier)
+		cleanupScratch()
+		os.Exit(code)
 	default:
 		die(2, "unknown command %s", os.Args[1])
 	}
@@ -685,10 +724,7 @@ func runCheck(id, tier string) int {
 	os.MkdirAll(filepath.Dir(evPath), 0o755)
 	os.Remove(evPath)
 	dir, binfo := ensureBuilt(p.harnessList(), false)
-	scratch, err := os.MkdirTemp("", "vsim-run-")
-	if err != nil {
-		die(2, "mktemp: %v", err)
-	}
+	scratch := newScratch("vsim-run-")
 	defer os.RemoveAll(scratch)
 
 	total, wall := p.Quick, p.QuickWall
@@ -1264,10 +1300,7 @@ func replayCmd(path string) int {
 		rf.Harness = p.Harness
 	}
 	dir, binfo := ensureBuilt([]string{rf.Harness}, false)
-	scratch, err := os.MkdirTemp("", "vsim-replay-")
-	if err != nil {
-		die(2, "mktemp: %v", err)
-	}
+	scratch := newScratch("vsim-replay-")
 	defer os.RemoveAll(scratch)
 	if rf.History != nil {
 		tier := rf.Tier
@@ -1343,10 +1376,7 @@ func selftest(tier string) int {
 		}
 		dir, _ := ensureBuilt([]string{p.Harness}, false)
 		bin := filepath.Join(dir, p.Harness+".test")
-		scratch, err := os.MkdirTemp("", "vsim-self-")
-		if err != nil {
-			die(2, "mktemp: %v", err)
-		}
+		scratch := newScratch("vsim-self-")
 		type key struct{ seed int }
 		ref := map[int]string{}
 		var mu sync.Mutex
